@@ -393,6 +393,7 @@ impl C20 {
         let pkg = pick(1, u.packages.len());
         let name = NameId(u.packages[pkg].name_id);
         let with_listener = pick(2, 2) == 1;
+        let extra_waiters = if with_listener { pick(3, 4) } else { 0 };
         let sched = crate::sched::Sched::new(Policy::Fifo, vec![]);
         let provider = TableProvider::new(c.u.clone()).with_sched(sched.clone());
         let cache = SolverCache::new(provider);
@@ -435,8 +436,13 @@ impl C20 {
                     return Some(f);
                 }
                 let mut b = Box::pin(cache.get_or_cache_dependencies(sid));
+                // further callers that wait for the same request
+                let mut more: Vec<_> = (0..extra_waiters).map(|_| Box::pin(cache.get_or_cache_dependencies(sid))).collect();
                 if with_listener {
                     let _ = futures::future::poll_fn(|cx| Poll::Ready(b.as_mut().poll(cx).is_ready())).await;
+                    for w in more.iter_mut() {
+                        let _ = futures::future::poll_fn(|cx| Poll::Ready(w.as_mut().poll(cx).is_ready())).await;
+                    }
                 }
                 drop(a);
                 if let Some(f) = availability(&cache, &[], &[], "after a dependencies request was abandoned while suspended in the provider") {
@@ -446,6 +452,23 @@ impl C20 {
                     Ok(d) => d.clone(),
                     Err(_) => return Some(bad("unexpected-cancel", "dependencies after an abandoned request".into())),
                 };
+                for w in more {
+                    if w.await.is_err() {
+                        return Some(bad("unexpected-cancel", "dependencies after an abandoned request (further waiting caller)".into()));
+                    }
+                }
+                // one abandoned request, one that the waiting callers share
+                let started = cache.provider().log.borrow().iter().filter(|c| matches!(c, Call::GetDependencies(x) if *x == sid.0)).count();
+                if started != 2 {
+                    return Some(bad(
+                        "duplicate-provider-request",
+                        format!(
+                            "get_dependencies({}) was started {started} times: once by the caller that was dropped, and it should be started exactly once more for the {} caller(s) that were waiting",
+                            u.display_solvable(s),
+                            1 + extra_waiters
+                        ),
+                    ));
+                }
                 let want = cache.provider().dependencies_of(s);
                 let same = match (&got, &want) {
                     (Dependencies::Unknown(x), Dependencies::Unknown(y)) => x == y,
@@ -630,8 +653,20 @@ impl C16 {
 
         let snapshot = if use_serde {
             labels.push("serde-round-trip");
-            let text = serde_json::to_string(&snapshot).map_err(|e| bad("serialize", e.to_string()))?;
-            let back: DependencySnapshot = serde_json::from_str(&text).map_err(|e| bad("deserialize", format!("{e}")))?;
+            // one to three cycles: what a deserialised snapshot serialises to must be a faithful
+            // copy as well (a snapshot file is read, amended and written again)
+            let cycles = 1 + sc.extra.get(93).map_or(0, |&v| (v as usize * 3) >> 16);
+            if cycles > 1 {
+                labels.push("several-serde-cycles");
+            }
+            let mut back: DependencySnapshot = {
+                let text = serde_json::to_string(&snapshot).map_err(|e| bad("serialize", e.to_string()))?;
+                serde_json::from_str(&text).map_err(|e| bad("deserialize", format!("{e}")))?
+            };
+            for cycle in 1..cycles {
+                let text = serde_json::to_string(&back).map_err(|e| bad("serialize", format!("cycle {cycle}: {e}")))?;
+                back = serde_json::from_str(&text).map_err(|e| bad("deserialize", format!("cycle {cycle}: {e}")))?;
+            }
             // (e) same contents
             let keys = |s: &DependencySnapshot| {
                 (
